@@ -21,6 +21,22 @@ CUBE_F = np.array([(0, 1, 3), (0, 3, 2), (4, 6, 7), (4, 7, 5), (0, 4, 5), (0, 5,
                    (1, 5, 7), (1, 7, 3)])
 
 
+TET_F = np.array([(0, 2, 1), (0, 1, 3), (0, 3, 2), (1, 2, 3)])
+INSIDE_LOCAL = {"CylinderSegmentMixed": (0.55, 0.2, 0.1), "TriangularMeshRagged": (0.05, 0.02, 0.0)}
+
+
+def inside_local(cls, i):
+    """a point inside body i that is OUTSIDE the shapes of the other body kinds of the pseudo class"""
+    s = 1 + 0.25 * i
+    if cls == "CylinderSegmentMixed":
+        return np.array((0.55, 0.2, 0.1)) * s if i % 2 == 0 else np.array((-0.55, -0.2, 0.1)) * s  # ring: azimuth outside the section
+    if i % 3 == 0:
+        return np.array((0.05, 0.45, 0.0)) * s      # in the cube, outside the flat box and the tetrahedron
+    if i % 3 == 1:
+        return np.array((0.75, 0.02, 0.0)) * s      # in the long box, outside the cube
+    return np.array((0.05, 0.02, 0.0)) * s
+
+
 def spec(cls, i):
     """parameters of instance i of class cls: (ctor kwargs, functional kwargs)"""
     s = 1 + 0.25 * i
@@ -32,6 +48,15 @@ def spec(cls, i):
         return {"polarization": pol, "dimension": np.array((1.0, 1.2)) * s}, ("polarization", "dimension")
     if cls == "CylinderSegment":
         return {"polarization": pol, "dimension": np.array((0.3 * s, 0.9 * s, 1.1 * s, -30 + 5 * i, 200))}, ("polarization", "dimension")
+    if cls == "CylinderSegmentMixed":  # partial sections and full hollow rings alternate (ring = two-cylinder shortcut)
+        d = (0.3 * s, 0.9 * s, 1.1 * s, -30 + 5 * i, 200) if i % 2 == 0 else (0.35 * s, 0.8 * s, 1.2 * s, 0, 360)
+        return {"polarization": pol, "dimension": np.array(d)}, ("polarization", "dimension")
+    if cls == "TriangularMeshRagged":  # equal face counts with different geometry next to a different face count
+        if i % 3 == 2:
+            v, f = TV * s, TET_F
+        else:
+            v, f = CUBE_V * (s * np.array((1.0, 1.0, 1.0) if i % 3 == 0 else (1.7, 0.6, 0.8))), CUBE_F
+        return {"polarization": pol, "vertices": v, "faces": f}, ("polarization", "mesh")
     if cls == "Sphere":
         return {"polarization": pol, "diameter": 1.1 * s}, ("polarization", "diameter")
     if cls == "Tetrahedron":
@@ -58,6 +83,7 @@ def ctor(cls):
             "Sphere": magpy.magnet.Sphere, "Tetrahedron": magpy.magnet.Tetrahedron, "Triangle": magpy.misc.Triangle,
             "TriangularMesh": magpy.magnet.TriangularMesh, "Circle": magpy.current.Circle, "Polyline": magpy.current.Polyline,
             "Polyline_seg": magpy.current.Polyline, "Dipole": magpy.misc.Dipole,
+            "CylinderSegmentMixed": magpy.magnet.CylinderSegment, "TriangularMeshRagged": magpy.magnet.TriangularMesh,
             "Loop": magpy.current.Loop, "Line": magpy.current.Line}[cls]
 
 
@@ -81,7 +107,7 @@ def run_func(c):
     from scipy.spatial.transform import Rotation as R
 
     cls, n, field, per = c["cls"], c["n"], c["field"], set(c["per"])
-    name = "Polyline" if cls == "Polyline_seg" else cls
+    name = {"Polyline_seg": "Polyline", "CylinderSegmentMixed": "CylinderSegment", "TriangularMeshRagged": "TriangularMesh"}.get(cls, cls)
     idx = lambda part, i: i if part in per else 0  # noqa: E731
     exp = np.empty((n, 3))
     kw_lists = {"exc": [], "geo": [], "pos": [], "ori": [], "obs": []}
@@ -91,6 +117,8 @@ def run_func(c):
         p, _ = pose(idx("pos", i))
         _, r = pose(idx("ori", i))
         o = observer(idx("obs", i))
+        if c.get("inside"):  # an observer inside the body that instance i is built from
+            o = p + r.apply(inside_local(cls, idx("geo", i)))
         kwargs = dict(ck_g)
         kwargs[ename] = ck_e[ename]
         obj = ctor(cls)(position=p, orientation=r, **kwargs)
@@ -109,6 +137,8 @@ def run_func(c):
 
     def arg(part):
         v = kw_lists[part]
+        if part == "geo" and part in per and len({np.shape(x) for x in v}) > 1:
+            return [np.array(x) for x in v]     # ragged input (meshes with different face counts): a list of arrays
         a = np.array(v) if part in per else np.array(v[0])
         return float(a) if a.ndim == 0 else a
 
@@ -124,6 +154,8 @@ def run_func(c):
     obs = arg("obs")
     if c.get("aslist"):
         fkw = {k: (v.tolist() if isinstance(v, np.ndarray) else v) for k, v in fkw.items()}
+        if isinstance(fkw.get("mesh"), list) and fkw["mesh"] and isinstance(fkw["mesh"][0], np.ndarray):
+            fkw["mesh"] = [m.tolist() for m in fkw["mesh"]]
         obs = obs.tolist()
     try:
         got = getattr(magpy, "get" + field)(name, obs, squeeze=False, **fkw)
@@ -287,8 +319,8 @@ def run_core(c):
         got = np.array([Hr * np.cos(phi), Hr * np.sin(phi), Hz]).T
         ref = np.array([magpy.current.Circle(diameter=d, current=i0).getH(o) for d, i0, o in zip(dia, cur, obs)])
     elif name == "magnet_cylinder_segment_Hfield":
-        dims = np.array([spec("CylinderSegment", i)[0]["dimension"] for i in range(n)])
-        pols = np.array([spec("CylinderSegment", i)[0]["polarization"] for i in range(n)])
+        dims = np.array([spec("CylinderSegmentMixed", i)[0]["dimension"] for i in range(n)])   # incl. full hollow rings
+        pols = np.array([spec("CylinderSegmentMixed", i)[0]["polarization"] for i in range(n)])
         r = np.sqrt(obs[:, 0] ** 2 + obs[:, 1] ** 2)
         phi = np.arctan2(obs[:, 1], obs[:, 0])
         ocy = np.array([r, phi, obs[:, 2]]).T
@@ -323,7 +355,10 @@ def run_core(c):
         return f"shape {got.shape} != {ref.shape}"
     sc = max(np.max(np.abs(ref)), 1e-300)
     err = np.max(np.abs(got - ref)) / sc
-    return None if err <= RTOL else f"values differ rel={err:.3g}"
+    # full rings: the object interface uses the difference of two Cylinders, the core the 26-case segment formulas whose
+    # elliptic routines stop at ~1e-9: two algorithms, compared at 1e-8 (a wrong body shows at O(1))
+    tol = 1e-8 if name == "magnet_cylinder_segment_Hfield" else RTOL
+    return None if err <= tol else f"values differ rel={err:.3g}"
 
 
 CORES = ["magnet_cuboid_Bfield", "magnet_sphere_Bfield", "dipole_Hfield", "current_polyline_Hfield", "triangle_Bfield",
@@ -356,6 +391,14 @@ def enumerate_cases(tier):
                     cases.append({"part": "func", "cls": cls, "n": n, "per": per, "field": field})
             cases.append({"part": "func", "cls": cls, "n": n, "per": PARTS if cls != "Dipole" else ["exc", "pos", "ori", "obs"],
                           "field": "B", "aslist": True})
+    for cls in ("CylinderSegmentMixed", "TriangularMeshRagged"):
+        for n in (2, 3, 4, 5):
+            for per in subsets:
+                if "geo" not in per:
+                    continue
+                for field in ("B", "H", "J", "M"):
+                    for inside in ((False, True) if {"pos", "ori", "obs"} <= set(per) else (False,)):
+                        cases.append({"part": "func", "cls": cls, "n": n, "per": per, "field": field, "inside": inside})
     for cls in FORM_CLASSES:
         for field in ("B", "H", "J", "M"):
             for plen in (1, 3):
